@@ -4,8 +4,9 @@
    validators without alliance stake. *)
 From Coq Require Import ZArith List Bool.
 From Alliance Require Import Num KMap Types Monad Model Step Spec Hoare WitnessLib.
-From Alliance.Witness Require Import F_C08_missing_destination F_C08_shrunken_destination F_C08_zero_value F_C08_pool_short.
+From Alliance.Witness Require Import F_C08_missing_destination F_C08_shrunken_destination F_C08_zero_value F_C08_pool_short F_C08_div_zero_settlement.
 From Alliance.Proofs Require Import Flag Misc.
+From Alliance.Proofs Require Import FailureModes.
 Import ListNotations.
 Open Scope Z_scope.
 
@@ -28,6 +29,14 @@ Print Assumptions C08_fixed_zero_value.
 Example C08_refuted_pool_short : witness_fails 8 1 ops_F_C08_pool_short = true.
 Proof. vm_compute. reflexivity. Qed.
 Print Assumptions C08_refuted_pool_short.
+(* F-C17-3 seen through C08: settling the rewards of a redelegation's destination divides by a zero
+   total of staked reward weights (the destination's weight rounds to zero); the callback panics.
+   History executed on the real implementation; the last result is a panic with code P_DIV_ZERO *)
+Example C08_refuted_div_zero_settlement :
+  witness_fails 8 1 ops_F_C08_div_zero_settlement = true /\
+  option_map snd (last_result (firstn 38 ops_F_C08_div_zero_settlement)) = Some Monad.P_DIV_ZERO.
+Proof. vm_compute. split; reflexivity. Qed.
+Print Assumptions C08_refuted_div_zero_settlement.
 
 (* whenever the callback succeeds a rebalance is queued *)
 Theorem C08_success_reschedules : forall s v f, snd (step s (OHookSlash v f)) = R_OK -> flag (fst (step s (OHookSlash v f))) = true.
@@ -41,3 +50,10 @@ Theorem C08_no_alliance_stake : forall s v f sv, 0 < f -> f <= ONE -> kget (sval
   exists s', hook_slash v f s = Ok tt s' /\ flag s' = true.
 Proof. exact slash_without_alliance_stake. Qed.
 Print Assumptions C08_no_alliance_stake.
+
+(* every way the callback can fail (exhaustive list of codes, any state): a fraction outside (0,1],
+   a missing staking validator / asset / record, the reward pool short, a zero-value validator, a
+   negative coin; nothing else *)
+Theorem C08_failure_modes : forall v f, raises (fun e => In e slash_codes) (hook_slash v f).
+Proof. exact slash_failure_modes. Qed.
+Print Assumptions C08_failure_modes.
